@@ -108,9 +108,7 @@ def cmp_identity(got, exp, hits, api, extra_ok=()):
     for k, v in exp.items():
         if k not in got or got[k] != v or type(got[k]) is not type(v):
             hits.hit("C16", "identity.decode", f"{api}: {k}={got.get(k)!r}, device holds {v!r}", api=api, field=k)
-    for k in got:
-        if k not in exp and k not in extra_ok:
-            hits.hit("C16", "identity.decode", f"{api}: unexpected key {k!r}", api=api, field="extra")
+    # further keys are not judged (the statement lists what must be there, e.g. get_plc_info adds 'keyswitch')
 
 
 def build_world(sc):
@@ -300,6 +298,11 @@ def run(sc):
                         if not ((name and name in res.error) or f"{rep['status']:02x}" in res.error.lower()):
                             hits.hit("C14", "generic.reply", f"error text {res.error!r} does not name status 0x{rep['status']:02x}",
                                      what="unnamed-status", **feat)
+                continue
+            if k == "change_identity":
+                # the device's identity changes between two calls (keyswitch turned, firmware flashed, module swapped)
+                mod = resolve_where(env, op["where"]) if op["where"] != "bridge" else env.entry
+                mod.identity.update(op["identity"])
                 continue
             if k == "get_plc_name":
                 outcome, res = harness.call(sim, drv.get_plc_name)
@@ -600,6 +603,16 @@ def gen(seed, tier, prop="C14"):
                 ops.append({"id": oid, "kind": "get_plc_info"})
             else:
                 ops.append({"id": oid, "kind": "discover", "cls": r.choice(("CIPDriver", "LogixDriver"))})
+        # now and then the identity of the target changes mid-history and is asked for again
+        if r.random() < 0.35:
+            k = r.randrange(1, len(ops) + 1)
+            idn = rand_identity(r)
+            idn.pop("product_name")          # keep the name (Micro800 detection hangs on it)
+            idn.pop("rev_major")             # and the firmware generation (it decides what the controller supports)
+            ops.insert(k, {"id": f"ci{k}", "kind": "change_identity", "where": "target", "identity": idn})
+            ops.append({"id": "oy", "kind": "get_plc_info"} if dcls == "LogixDriver" else
+                       {"id": "oy", "kind": "list_identity", "cls": "CIPDriver", "path": path if dcls == "CIPDriver" else
+                        ("10.0.0.1" if layout not in ("clx", "multihop") else path), "host": "10.0.0.1"})
         ops.append({"id": "oz", "kind": "close"})
         sc["ops"] = ops
         return sc
